@@ -455,8 +455,16 @@ static void case_likelihood(Rng& rng, uint64_t index)
 		hash_param(sig[i]), hash_param(bkg[i]), hash_param_u(obs[i]);
 	if(bins > 1 && with_bkg)
 		mark_nontrivial();
-	double LB  = with_bkg ? Likelihood_Poisson_Binned(sig, obs, bkg) : Likelihood_Poisson_Binned(sig, obs);
-	double lLB = with_bkg ? Log_Likelihood_Poisson_Binned(sig, obs, bkg) : Log_Likelihood_Poisson_Binned(sig, obs);
+	// "no background" stated explicitly by an empty list that the caller keeps and passes again for other binnings, or left to the default argument: the
+	// list must still be empty afterwards (seeded change C07-r7m1 took it by reference and filled in the zeros it uses internally)
+	static std::vector<double> no_background;
+	bool explicit_empty = !with_bkg && rng.coin(0.5);
+	const std::vector<double> sig0 = sig, bkg0 = bkg;
+	const std::vector<unsigned long> obs0 = obs;
+	double LB  = with_bkg ? Likelihood_Poisson_Binned(sig, obs, bkg) : explicit_empty ? Likelihood_Poisson_Binned(sig, obs, no_background) : Likelihood_Poisson_Binned(sig, obs);
+	double lLB = with_bkg ? Log_Likelihood_Poisson_Binned(sig, obs, bkg) : explicit_empty ? Log_Likelihood_Poisson_Binned(sig, obs, no_background) : Log_Likelihood_Poisson_Binned(sig, obs);
+	require("binned-likelihood-leaves-its-arguments-as-they-were", no_background.empty() && sig == sig0 && bkg == bkg0 && obs == obs0, [&] { return J().i("bins", bins).i("entries_in_the_empty_background_list_afterwards", (long long) no_background.size()); });
+	no_background.clear();
 	judge("binned-log-likelihood-is-sum-of-bin-log-likelihoods", (double) fabsl((ld) lLB - logprod), 1e-10 * std::max(1.0, (double) fabsl(logprod)), [&] { return J().i("bins", bins).d("Log_Likelihood_Poisson_Binned", lLB).d("reference", (double) logprod); });
 	judge("binned-likelihood-is-product-of-bin-likelihoods", (double) fabsl((ld) LB - expl(logprod)), 1e-10 * std::max(1.0, (double) fabsl(logprod)) * (double) expl(logprod) + 1e-300, [&] { return J().i("bins", bins).d("Likelihood_Poisson_Binned", LB).d("reference", (double) expl(logprod)); });
 	if(index % 997 == 0)
